@@ -105,6 +105,12 @@ pub fn gen(seed: u64, tier: Tier, k: u64) -> Value {
             }
         }
     }
+    // some sequences end on clusters that are still open at finalize and hold nothing but empty contents
+    if seq % 4 >= 2 {
+        for _ in 0..rng.range(1, 4) {
+            items.push(Item { len: 0, ent: Ent::Zero, hint: if seq % 4 == 2 { Hint::No } else { Hint::Yes }, src: Src::Mem, dup_of: None, cat_of: None });
+        }
+    }
     // every third sequence goes through the deduplicating adder (it hashes, buffers or rewinds the source before handing it over)
     let case = ContentCase { seed: mix(seed ^ seq), comp, cached: seq % 3 == 1, items };
     json!({"seq": seq, "workers": workers, "delay_seed": dseed, "profile": PROFILES[((seq + dseed) % 4) as usize], "content": case.to_json()})
